@@ -28,6 +28,7 @@
   and the defects are theorems about the unrepaired configuration (Props/C02.lean).
 -/
 import NngModel.Spec.Aio
+import NngModel.Generated.C02
 namespace Nng.Aio
 open Nng.AioSpec
 
